@@ -4,7 +4,7 @@ package main
 // lock package; after every op the number of entries in the per-key queue map is read through
 // the verif-only accessor lock.VerifQueueCount.
 //
-// ops:   case N | lock K long|short | unlock S | expire S | cancel S | count
+// ops:   case N | lock K long|short | lockh K (stopped between getQueue and enqueue) | go S | unlock S | expire S | cancel S | count
 // reply: <event> entries=<map entries> queued=<callers queued over all keys of the case> holders=<max over keys of callers that acquired and did not release>
 
 import (
@@ -30,16 +30,26 @@ func genC28(rng *rand.Rand, tier string, w *bufio.Writer) {
 	}
 	// corpus: the Lean witness (three keys locked and released once each), and TTL / cancel releases
 	fmt.Fprintln(w, "case 0\nlock 10 long\nunlock 1\nlock 11 long\nunlock 2\nlock 12 long\nunlock 3\ncount")
+	// a caller that holds a pointer to a queue while the queue is emptied (pruning: it must retry on the key's new queue)
+	fmt.Fprintln(w, "case 2\nlock 7 long\nlockh 7\nunlock 1\ncount\ngo 2\ncount\nlock 7 long\nunlock 2\nunlock 3\ncount")
 	fmt.Fprintln(w, "case 1\nlock 5 short\nlock 5 long\nlock 6 long\nexpire 1\ncancel 2\nunlock 2\nunlock 3\ncount\nlock 5 long\nunlock 4\ncount")
-	for c := 2; c < cases; c++ {
+	for c := 3; c < cases; c++ {
 		fmt.Fprintf(w, "case %d\n", c)
 		n := 4 + rng.Intn(maxLen)
 		nkeys := 1 + rng.Intn(12)
-		var live, short []int
+		var live, short, heldS []int
 		sessions := 0
 		for i := 0; i < n; i++ {
 			r := rng.Intn(100)
 			switch {
+			case r >= 91 && r < 95:
+				sessions++
+				live = append(live, sessions)
+				heldS = append(heldS, sessions)
+				fmt.Fprintf(w, "lockh %d\n", rng.Intn(nkeys))
+			case r >= 95 && len(heldS) > 0:
+				fmt.Fprintf(w, "go %d\n", heldS[0])
+				heldS = heldS[1:]
 			case r < 40 || sessions == 0:
 				ttl := "long"
 				sessions++
@@ -64,6 +74,9 @@ func genC28(rng *rand.Rand, tier string, w *bufio.Writer) {
 			}
 		}
 		// release everything, then count
+		for _, s := range heldS {
+			fmt.Fprintf(w, "go %d\n", s)
+		}
 		for _, s := range live {
 			fmt.Fprintf(w, "unlock %d\n", s)
 		}
@@ -108,7 +121,13 @@ func runC28(in *bufio.Scanner, out *bufio.Writer) {
 				}
 			}
 		}
-		return fmt.Sprintf("entries=%d queued=%d holders=%d", lock.VerifQueueCount(w.lk), queued, holders)
+		inflight := 0 // Lock calls between getQueue and enqueue
+		for _, s := range w.sess {
+			if s.held {
+				inflight++
+			}
+		}
+		return fmt.Sprintf("entries=%d queued=%d inflight=%d holders=%d", lock.VerifQueueCount(w.lk), queued, inflight, holders)
 	}
 	get := func(f []string) *c14Sess {
 		if len(f) < 2 {
@@ -146,16 +165,31 @@ func runC28(in *bufio.Scanner, out *bufio.Writer) {
 			}
 			s, res := w.startLock(f[1], ttl, short, false)
 			fmt.Fprintf(out, "enq %d %s %s\n", s.n, res, tail())
+		case "lockh":
+			if len(f) != 2 {
+				fmt.Fprintln(out, "bad-op")
+				break
+			}
+			s, res := w.startLockAtGotq(f[1], time.Hour, false)
+			fmt.Fprintf(out, "%s %d %s\n", res, s.n, tail())
+		case "go":
+			s := get(f)
+			if s == nil || !s.held {
+				fmt.Fprintln(out, "skip "+tail())
+				break
+			}
+			fmt.Fprintf(out, "enq %d %s %s\n", s.n, w.continueFromGotq(s), tail())
 		case "unlock":
 			s := get(f)
 			if s == nil || !s.acquired {
 				fmt.Fprintln(out, "skip "+tail())
 				break
 			}
+			_, _, hadQueue := lock.VerifSnapshot(w.lk, s.key)
 			res := w.safeUnlock(s.key, s.id)
 			s.released = true
-			if res != "panic" {
-				if ev, ok := w.waitFor("lock.rm", s.id); !ok {
+			if res != "panic" && hadQueue {
+				if ev, ok := w.waitForRaw("lock.rm", s.id); !ok {
 					res = "unexpected-" + ev.name
 				}
 			}
@@ -172,22 +206,22 @@ func runC28(in *bufio.Scanner, out *bufio.Writer) {
 			if w.inQueue(s) {
 				res = "removed"
 				s.released = true
-				if _, ok := w.waitTTL(s.id); !ok {
+				if _, ok := w.waitTTL(s.qid); !ok {
 					res = "unexpected-timeout"
 				} else {
-					w.release(w.ttlWait, s.id)
-					if ev, ok := w.waitFor("lock.rm", s.id); !ok {
+					w.release(w.ttlWait, s.qid)
+					if ev, ok := w.waitFor("lock.rm", s.qid); !ok {
 						res = "unexpected-" + ev.name
 					}
 				}
 				res += w.settle(s.key)
 			} else {
-				w.release(w.ttlWait, s.id)
+				w.release(w.ttlWait, s.qid)
 			}
 			fmt.Fprintf(out, "expire %d %s %s\n", s.n, res, tail())
 		case "cancel":
 			s := get(f)
-			if s == nil || s.cancelled {
+			if s == nil || s.cancelled || s.held {
 				fmt.Fprintln(out, "skip "+tail())
 				break
 			}
@@ -197,10 +231,8 @@ func runC28(in *bufio.Scanner, out *bufio.Writer) {
 			if !s.acquired && !s.gone {
 				s.gone = true
 				res = "removed"
-				if ev, ok := w.waitFor("lock.cancel", s.id); !ok {
-					res = "unexpected-" + ev.name
-				} else if ev, ok := w.waitFor("lock.rm", s.id); !ok {
-					res = "unexpected-" + ev.name
+				if !w.returned(s) {
+					res = "unexpected-timeout"
 				}
 				res += w.settle(s.key)
 			}
